@@ -12,7 +12,7 @@ Audience == /\ pc = "Audience"
             /\ UNCHANGED <<cfg, in, out>>
 \* OneTimeUse and ProxyRestriction (validate.go:118-133)
 Rest == /\ pc = "Rest" /\ pc' = "done"
-        /\ out' = [res |-> "accept", nia |-> nia, otu |-> in.otu,
+        /\ out' = [res |-> "accept", time |-> in.win # "in", nia |-> nia, otu |-> in.otu,
                    proxy |-> [present |-> in.proxy.present, count |-> CountNum(in.proxy.count), aud |-> in.proxy.aud]]
         /\ UNCHANGED <<cfg, in, i, nia>>
 Next == Audience \/ Rest
